@@ -81,7 +81,9 @@ Definition mismatches (cs : list case) : list N :=
   map k_id (filter (fun k => negb (case_agrees k)) cs).
 
 (* ---- the property, judged on the observation alone ---- *)
-Definition MAX_DEADLINES : N := 2.
+(* "within a bounded time": at most three idle deadlines (smtp needs two when a command is cut
+   short, memcached three when the data block of a store command is cut short) *)
+Definition MAX_DEADLINES : N := 3.
 
 Definition last_obs (k : case) : option obs := last (map Some (k_obs k)) None.
 
@@ -98,6 +100,7 @@ Definition SIG_DESCRIPTORS := 10%N.
 Definition SIG_DEADLINES := 11%N.
 Definition SIG_FTP_DATA_CONN := 12%N.         (* ftp: accepted data connection forgotten when the socket is replaced *)
 Definition SIG_FTP_DIR_HANDLE := 13%N.        (* ftp: ListDir leaves the directory open *)
+Definition SIG_MEMCACHED_STORE_SPIN := 14%N.  (* memcached: io.ReadFull for a data block the datagram does not hold *)
 
 (* which of the two descriptor defects of ftp the faithful model sees in this case *)
 Definition ftp_fd_sigs (k : case) : list N :=
@@ -122,6 +125,7 @@ Definition case_sigs (k : case) : list N :=
       (if (o_out o =? 2)%N || (o_out o =? 3)%N then
          [if ok && (o_out o =? 2)%N && is_zero_term k && (is_svc k Ntp || is_svc k Echo) then SIG_SPIN_DRAINED_DATAGRAM
           else if ok && (o_out o =? 2)%N && is_zero_term k && is_svc k Adb then SIG_ADB_DATAGRAM_FLOOD
+          else if ok && (o_out o =? 2)%N && is_zero_term k && is_svc k Memcached then SIG_MEMCACHED_STORE_SPIN
           else if ok && (o_out o =? 3)%N && is_svc k Ftp then SIG_FTP_PASSIVE_WAIT
           else SIG_NO_RETURN]
        else
